@@ -132,6 +132,7 @@ Stateless(e) ==
     [] e.op = "srdecode" -> DecodeOK(e)
     \* length sweep: a signature verifies on the transcript it was made for and on no transcript whose context or message
     \* differs (the framing commits to every byte and to both lengths: Merlin.tla / MC_C13 injectivity); verdict by class
+    [] e.op = "srfresh" -> e.ok = TRUE        \* marshalled values are the caller's own copies
     [] e.op = "srsweep" -> e.same = TRUE /\ e.ctxlast = FALSE /\ e.msglast = FALSE /\ e.split = FALSE /\ e.failed = TRUE
     [] e.op = "srgen" -> LET key == ModL(FromBytes(SubSeq(e.entropy, 1, 64)))
                              skb == ToBytes(key, 32) \o SubSeq(e.entropy, 65, 96)
